@@ -50,5 +50,12 @@ TEXT = {
  'C14': dict(level="Theorems C14_too_large / C14_delivery / C14_flagged / C14_handle prove, for every session, sender, recipient list and body "
                    "(parametric in the bytes), exactly which members receive a custom message; the model is tied to the code by the correspondence run.",
              note=_std_note, technique=_tech),
+ 'C18': dict(level="C18_start (a measurement starts iff joined, 3..50 rounds, wallet given), C18_start_inv / C18_round (under the invariant LatInv - which start establishes "
+                   "and every accepted round keeps - a measurement of n rounds issues exactly one ping per round and ends with one report carrying the request id, "
+                   "session UUID, wallet, n, and exactly the n distinct ping ids, each answered once), C18_refuse / C18_refuse_answered (unknown or already "
+                   "answered ids are refused and change nothing), C18_stats_consistent (0 <= min <= mean <= max, p95 and last within [min,max] for 3..50 rounds).",
+             note=_std_note + " The ECDSA signature and Keccak-256 are outside the model: the harness verifies every report's signature against the server key. "
+                  "Statistics are proved over natural-number microseconds; the tie to Go's float32 code is the STAT correspondence (latencies below 2^24). "
+                  "Ping ids come from the nanosecond clock: distinctness of issued ids is a hypothesis (hfresh) of C18_round.", technique=_tech),
 }
 NA = {}
